@@ -31,6 +31,9 @@ import (
 var (
 	verifDir = envOr("PIKEMC_VERIF", "/verif")
 	repoDir  = envOr("PIKEMC_REPO", "/repo")
+	// srcDir: where the sources are read from (default: repoDir itself). A scratch worktree with a candidate
+	// change can be checked without touching /repo: PIKEMC_SRC=/tmp/wt ./check.sh C01
+	srcDir = envOr("PIKEMC_SRC", repoDir)
 )
 
 func envOr(k, d string) string {
@@ -126,7 +129,7 @@ func fatal(code int, f string, a ...interface{}) {
 func build(race bool) string {
 	work := filepath.Join(verifDir, ".work")
 	os.MkdirAll(work, 0o755)
-	res, err := instr.Generate(repoDir, filepath.Join(verifDir, "export"), work, nil)
+	res, err := instr.GenerateFrom(repoDir, srcDir, filepath.Join(verifDir, "export"), work, nil)
 	if err != nil {
 		fatal(2, "HARNESS ERROR: %v", err)
 	}
@@ -308,7 +311,7 @@ func sanitize(s string) string {
 // updateCalls extracts the package-qualified calls of main.update() in source order.
 func updateCalls() []string {
 	fset := token.NewFileSet()
-	f, err := parser.ParseFile(fset, filepath.Join(repoDir, "main.go"), nil, 0)
+	f, err := parser.ParseFile(fset, filepath.Join(srcDir, "main.go"), nil, 0)
 	if err != nil {
 		return nil
 	}
@@ -605,9 +608,10 @@ func check(id, tier string) int {
 	for _, s := range scen {
 		s.Outcomes = nil
 	}
-	os.MkdirAll(filepath.Join(verifDir, "evidence"), 0o755)
+	evDir := envOr("PIKEMC_EVIDENCE_DIR", filepath.Join(verifDir, "evidence")) // runs on scratch trees write elsewhere
+	os.MkdirAll(evDir, 0o755)
 	b, _ := json.MarshalIndent(ev, "", " ")
-	os.WriteFile(filepath.Join(verifDir, "evidence", id+".json"), b, 0o644)
+	os.WriteFile(filepath.Join(evDir, id+".json"), b, 0o644)
 	for _, s := range scen {
 		fmt.Printf("  %-28s %-11s execs=%-9d points=%-10d depth<=%-4d outcomes=%-6d exhaustive=%v %s %s\n", s.Name, s.Kind, s.Execs, s.Points, s.MaxDepth, s.NOutcomes, s.Exhaustive, s.Bounds, s.CapNote)
 	}
